@@ -38,6 +38,13 @@ Definition env_jailed (blk : list event) : list Z :=
                         | _ => []
                         end) blk).
 
+(* validators whose stake the environment changed in this block (x/staking delegations: not the oracle's doing) *)
+Definition env_restaked (blk : list event) : list Z :=
+  concat (map (fun e => match e with
+                        | EvBegin envs => concat (map (fun x => match x with EO (EnvSetTokens v _) => [v] | _ => [] end) envs)
+                        | _ => []
+                        end) blk).
+
 (* every crisis invariant holds after every block (C14, also a health check for the others) *)
 Definition chk_invariants (c : case) (k : Z) (prev : snap) (blk : list event) (blko : list iobs) (sn : snap) : list Z :=
   if sn_inv sn then [] else [90].
@@ -63,7 +70,7 @@ Definition chk_C15 (c : case) (k : Z) (prev : snap) (blk : list event) (blko : l
   else
     (if forallb (fun v =>
           match find_val (sn_vals sn) (v_addr v) with
-          | Some v' => (v_tokens v' =? v_tokens v)
+          | Some v' => ((v_tokens v' =? v_tokens v) || memZ (v_addr v) (env_restaked blk))
                        && (implb (v_jailed v') (v_jailed v || memZ (v_addr v) ej))
           | None => false
           end) (sn_vals prev) then [] else [1])
